@@ -857,6 +857,9 @@ CHECKS = {
                  "contexts and neither is 'lost' (names with ForceWithContext not judged); success-without-majority / released-while-live / "
                  "gave-up-keys-while-live / keys-taken-while-live = a live holder that is not 'lost' owns fewer than KeyMajority keys; "
                  "loss-not-noticed = a live holder owns fewer than KeyMajority keys for longer than KeyValidity + ExtendInterval + KeyValidity/2 + 1 s; "
+                 "loss-not-noticed-when-idle (no connection fault in the run) = a holder whose keys another client deleted or overwrote is still live below its majority when nothing "
+                 "but the clock can make progress - every invalidation delivered, every goroutine asleep: the notification did not cancel it, only its next extension timer can "
+                 "(-sibling-call: another call of the same Locker on the name was acquiring or holding meanwhile; the notification channels are shared per Locker, name and key index); "
                  "at the end of a run that went idle (only the clock left): waiter-* = a WithContext call whose context was never cancelled is still "
                  "waiting although nobody holds the name and a majority of its keys is free (sub-rules name the cause chain: asleep-after-own-failure, "
                  "not-woken-by-same-locker-release-under-noloop, stranded-behind-failed-attempt, missed-wakeup). "
@@ -865,6 +868,7 @@ CHECKS = {
             {"module": "rueidislock", "scenario": "lock", "quick": 900, "thorough": 40000, "procs": (1, 1, 2)},
             {"module": "rueidislock", "scenario": "lock", "variant": "force", "quick": 240, "thorough": 10000, "procs": (1, 1, 2)},
             {"module": "rueidislock", "scenario": "lock", "variant": "trynext", "quick": 120, "thorough": 6000, "procs": (1, 1, 2)},
+            {"module": "rueidislock", "scenario": "lock", "variant": "fresh", "quick": 600, "thorough": 30000, "procs": (1,)},
         ],
         "expected_probes": ["acquire-refused-key-held", "waiter-acquired-after-waiting", "extension-executed", "ghost-del-of-live-holder-key",
                             "holder-key-expired", "loss-noticed", "key-overwritten", "fault-fired:stall", "fault-fired:node-restart",
@@ -884,9 +888,14 @@ CHECKS = {
             "trynext uses the default 20 ms / 200 ms in clean plans (that is where waiter-asleep-after-own-failure shows without any fault)",
             "unregistered exploratory variants of the scenario (not reproducible run by run, hence not parts of the check): optout (default tracking mode), maj1 (KeyMajority 1), "
             "giveup (directed at gave-up-keys-while-live: caller deadlines 3 ms after an extension timer plus connection faults; about 2 % of its runs diverge between processes)",
-            "'promptly' is taken as KeyValidity + ExtendInterval + KeyValidity/2 + 1 s of fake time: noticing a loss only at the next extension timer passes",
+            "'promptly' has two readings, both checked: with a clock, KeyValidity + ExtendInterval + KeyValidity/2 + 1 s of fake time (noticing a loss only at the next extension "
+            "timer passes); without one, rule loss-not-noticed-when-idle - once the invalidation of a key another client took away has been delivered and nothing but the clock can "
+            "run, the holder is done (in runs without connection faults, which lose pushes)",
             "s2c deliveries end at frame boundaries (one reply or push per step) and goroutines parked under one identical identity are released together: both are needed "
-            "because rueidislock reacts to pushes on several goroutines at once",
+            "because rueidislock reacts to pushes on several goroutines at once. Variant fresh (another client deletes a key in the step after a Locker's script set it; clock "
+            "only when idle) instead delivers the reply of an acquisition and the invalidation behind it in one read: which of the acquiring goroutine and the connection's "
+            "reader reaches the key's notification channel first is then the Go runtime's choice (with GOMAXPROCS 1, which the part runs with, the reader finishes its read "
+            "first); the code under test must handle both orders, so the oracle does not depend on it, only replay hashes may",
             "server and client share one clock (no clock offset between Lockers and Redis)",
         ],
     },
